@@ -43,7 +43,7 @@ func isDef(line string) bool {
 		return false
 	}
 	return strings.HasPrefix(line, "def ") || strings.HasPrefix(line, "move ") ||
-		strings.HasPrefix(line, "reset") || strings.HasPrefix(line, "odef ") || strings.HasPrefix(line, "oparse ")
+		strings.HasPrefix(line, "reset") || strings.HasPrefix(line, "oreset") || strings.HasPrefix(line, "onew") || strings.HasPrefix(line, "oparse")
 }
 
 func worker(args []string) {
